@@ -32,5 +32,5 @@ for d in sorted(glob.glob(os.path.join(src, "C*"))):
         other = [k + ":" + v["status"] for k, v in r["props"].items() if v["status"] not in ("FIRED", "silent")]
         tgt = r["props"].get(prop, {})
         print(f"{name:8s} clean-demo={'ok' if r.get('demo_passes_without_patch') else 'FAIL'} suite={'ok' if r.get('suite_passes_with_patch') else 'FAIL'} demo-with-patch={'fails' if r.get('demo_fails_with_patch') else 'PASSES'}  target {prop}={tgt.get('status')} fired={fired} {other} {(tgt.get('keys') or [''])[0][:140]}", flush=True)
-        rows.append(dict(name=name, prop=prop, **{k: r.get(k) for k in ("demo_passes_without_patch", "suite_passes_with_patch", "demo_fails_with_patch")}, fired=fired, other=other, keys=tgt.get("keys")))
+        rows.append(dict(name=name, prop=prop, **{k: r.get(k) for k in ("demo_passes_without_patch", "suite_passes_with_patch", "demo_fails_with_patch")}, fired=fired, other=other, keys=tgt.get("keys"), ran=sorted(r["props"])))
 json.dump(rows, open(os.environ.get("RESULTS_OUT") or ("/tmp/agent_results.json" if only else os.path.join(ROOT, "selftest", "agent_results.json")), "w"), indent=1)
